@@ -389,6 +389,7 @@ pub fn gen_plan(seed: u64, prof: &Profile) -> Plan {
     let await_max = *r.pick(&[1_000u64, 1_000_000, 1_000_000_000, 100_000_000_000]);
     let await_pm: u64 = *r.pick(&[0, 300, 700, 1000]);
     let logs = prof.tracing;
+    let log_burst = logs && r.chance(1, 3);
     let mut gen_beh = |r: &mut Rng, world: bool| -> Behaviour {
         let mut awaits = Vec::new();
         if r.chance(await_pm, 1000) {
@@ -405,7 +406,18 @@ pub fn gen_plan(seed: u64, prof: &Profile) -> Plan {
         } else {
             Outcome::Pass
         };
-        let lg = if logs && !world { (r.below(3) as u8, r.below(3) as u8) } else { (0, 0) };
+        let lg = if logs && !world {
+            if log_burst && r.chance(1, 12) {
+                // a burst: many log events queued ahead of one result event
+                (r.range(20, 120) as u8, r.below(3) as u8)
+            } else if log_burst && r.chance(1, 12) {
+                (r.below(3) as u8, r.range(20, 120) as u8)
+            } else {
+                (r.below(4) as u8, r.below(4) as u8)
+            }
+        } else {
+            (0, 0)
+        };
         Behaviour { awaits, outcome, logs: lg }
     };
     let attempts = max_retries + 1;
@@ -484,6 +496,7 @@ pub fn gen_plan(seed: u64, prof: &Profile) -> Plan {
         spurious_pm: if noise { *r.pick(&[0, 0, 50, 300]) } else { 0 },
         busy_k: r.range(1, 4) as u32,
         oversleep_ns: if noise && r.chance(1, 2) { r.log_dur(1_000_000_000) } else { 0 },
+        consumer_pm: if noise { *r.pick(&[0, 0, 30, 200]) } else { 0 },
     };
 
     Plan {
